@@ -126,7 +126,7 @@ static void gen_tail(plan_t *p, rng_t *r, int task, int hard)
         case 0: plan_op(p, task, "open", 1, (long)s); break;
         case 1: o = plan_op(p, task, "close", 1, (long)s); if (rng_chance(r, 1, 4)) op_fault(o, FAULT(FC_CLOSE, FO_EINTR, 0)); break;
         case 2: if (d != s) plan_op(p, task, "dup", 2, (long)s, (long)d); break;
-        case 3: plan_op(p, task, "del", 1, (long)s); break;
+        case 3: plan_op(p, task, rng_chance(r, 1, 3) ? "done" : "del", 1, (long)s); break;
         case 4: o = plan_op(p, task, "send", 1, (long)s); make_payload(o, 200 + i, (size_t)payload_sizes[rng_below(r, 4)]); gen_faults(o, r, FC_WRITE, 3, 0, hard); break;
         case 5: if (rng_chance(r, 1, 2)) { plan_op(p, task, "nbio", 2, (long)s, 1L); o = plan_op(p, task, "recv", 1, (long)s); gen_faults(o, r, FC_READ, 3, 1, hard); } break;
         case 6: if (d != 0) plan_op(p, task, "accept", 2, 0L, (long)d); break;
@@ -145,6 +145,8 @@ static void gen(plan_t *p, rng_t *r)
     srv_nbio = rng_chance(r, 1, 3);
     plan_knob(p, "ntasks", 1 + nclients);
     plan_knob(p, "hard", hard);
+    if (rng_chance(r, 1, 8)) plan_knob(p, "fd.base", 0);                        /* standard descriptors closed: socket() may answer 0 */
+    if (rng_chance(r, 1, 6)) plan_knob(p, "select.eintr", rng_range(r, 1, 4));      /* a back-off wait is interrupted by a signal */
     plan_knob(p, "sock.rxcap", rxcaps[rng_below(r, 7)]);
     plan_knob(p, "alloc.fill", rng_range(r, 0, 4));
     plan_knob(p, "alloc.realloc", rng_range(r, 0, 2));
@@ -197,6 +199,7 @@ static void gen(plan_t *p, rng_t *r)
             }
             if (rng_chance(r, 1, 8)) { o = plan_op(p, 0, "send", 1, (long)slot); make_payload(o, 100 + c, (size_t)payload_sizes[rng_below(r, 8)]); gen_faults(o, r, FC_WRITE, 3, 0, 0); }
             if (rng_chance(r, 1, 6)) { o = plan_op(p, 0, "close", 1, (long)slot); if (rng_chance(r, 1, 3)) op_fault(o, FAULT(FC_CLOSE, FO_EINTR, 0)); }
+            if (rng_chance(r, 1, 6)) plan_op(p, 0, "done", 1, (long)slot);          /* emptied first, deleted (or not) afterwards */
             if (rng_chance(r, 7, 8)) { o = plan_op(p, 0, "del", 1, (long)slot); if (rng_chance(r, 1, 8)) op_fault(o, FAULT(FC_CLOSE, FO_EINTR, 0)); }
         }
         if (rng_chance(r, 1, 6)) { o = plan_op(p, 0, "close", 1, 0L); if (rng_chance(r, 1, 2)) op_fault(o, FAULT(FC_CLOSE, FO_EINTR, 0)); }
@@ -255,6 +258,8 @@ static void gen(plan_t *p, rng_t *r)
 /* ------------------------------------------------------------------ oracles */
 static uint32_t slot_gen[TASK_MAX][NSLOT];
 static int slot_fd[TASK_MAX][NSLOT];
+static int op_slot[TASK_MAX];                 /* the slot the running operation of a task works on, -1 = none */
+static uint32_t op_gen_start[TASK_MAX];       /* descriptor generation counter when that operation started */
 static void census(int t, const char *when)
 {
     /* descriptor numbers are recycled: an object must keep referring to the descriptor it was given, not to a later one
@@ -263,8 +268,13 @@ static void census(int t, const char *when)
         spif_socket_t so = sock[t][s];
         if (!so || so->fd < 0) { slot_fd[t][s] = -1; slot_gen[t][s] = 0; continue; }
         if (so->fd != slot_fd[t][s]) { slot_fd[t][s] = so->fd; slot_gen[t][s] = simfd_gen(t, so->fd); }
-        else if (simfd_is_open(t, so->fd) && slot_gen[t][s] && simfd_gen(t, so->fd) != slot_gen[t][s])
-            sim_fail("INVARIANT(stale-descriptor)", "%s: slot %d still holds number %d, which now names a descriptor opened later", when, s, so->fd);
+        else if (simfd_is_open(t, so->fd) && slot_gen[t][s] && simfd_gen(t, so->fd) != slot_gen[t][s]) {
+            /* the same number, another descriptor.  If this very operation on this very object opened it (the object let its old
+               descriptor go and made a new one, and the kernel handed the lowest free number back), the object is up to date;
+               if it was opened by anything else the object is referring to somebody else's descriptor */
+            if (op_slot[t] == s && simfd_gen(t, so->fd) > op_gen_start[t]) slot_gen[t][s] = simfd_gen(t, so->fd);
+            else sim_fail("INVARIANT(stale-descriptor)", "%s: slot %d still holds number %d, which now names a descriptor opened later", when, s, so->fd);
+        }
     }
     /* every live socket object of this task with fd >= 0 refers to an open descriptor; no two objects share one */
     for (int s = 0; s < NSLOT; s++) {
@@ -276,6 +286,13 @@ static void census(int t, const char *when)
             if (sock[t][s2] && sock[t][s2]->fd == so->fd)
                 sim_fail("INVARIANT(shared-descriptor)", "%s: slots %d and %d both refer to fd %d", when, s, s2, so->fd);
     }
+}
+static void leak_check_done(int t, int s)
+{
+    /* after done() the object owns nothing: a descriptor it had is closed, and the object says so */
+    spif_socket_t so = sock[t][s];
+    if (so && so->fd >= 0 && simfd_is_open(t, so->fd) && slot_fd[t][s] == so->fd && simfd_gen(t, so->fd) == slot_gen[t][s])
+        sim_fail("INVARIANT(descriptor-leak)", "done() left the object's descriptor %d open", so->fd);
 }
 static void leak_check(int t)
 {
@@ -292,6 +309,15 @@ static void do_op(int t, op_t *o)
     if (s < 0 || s >= NSLOT) sim_skip("bad-slot");
     so = sock[t][s];
     simfd_hard_error = 0;
+    op_slot[t] = s; op_gen_start[t] = simfd_gen_now();
+    if (!strcmp(o->kind, "done")) {
+        /* the object is emptied but lives on: it must not go on referring to the descriptor it has just closed (the census below) */
+        if (!so) return;
+        spif_socket_done(so);
+        tr_printf("t%d done slot%d fd=%d", t, s, so->fd);
+        probe_hit("done_object_kept");
+        leak_check_done(t, s);
+    } else
     if (!strcmp(o->kind, "new")) {
         spif_url_t u;
         char *txt;
@@ -395,8 +421,15 @@ static void do_op(int t, op_t *o)
         role = simfd_conn_role(t, fd);
         if (cid <= 0) return;                         /* recv on a listener / unconnected socket: outside the property */
         simfd_last_read_t[task_current()] = 1;
-        got = spif_socket_recv(so);
-        if (!got) sim_fail("MISMATCH(recv-null)", "spif_socket_recv returned NULL");
+        { uint64_t rx0 = simfd_is_open(t, fd) ? simfd_rx_total(t, fd) : 0;
+          got = spif_socket_recv(so);
+          if (!got) {
+              /* nothing to hand out is not one of the statement's payloads (they have at least one byte): NULL is as good as an empty
+                 string then -- but only then */
+              if (simfd_is_open(t, fd) && simfd_rx_total(t, fd) != rx0) sim_fail("MISMATCH(recv-null)", "spif_socket_recv returned NULL although the kernel delivered %llu bytes during the call", (unsigned long long)(simfd_rx_total(t, fd) - rx0));
+              probe_hit("recv_returned_nothing");
+              return;
+          } }
         /* "EINTR is transparent, short reads are continued": a receive may only stop because the descriptor reported end of file
            or an error other than EINTR (EAGAIN on a non-blocking socket, EIO, ...) -- never after a read that returned data or EINTR */
         { long lr = simfd_last_read_t[task_current()];
@@ -480,6 +513,8 @@ static void task_body(int t, void *arg)
 static void exec(const plan_t *p)
 {
     int nt = (int)plan_get(p, "ntasks", 2), rc;
+    if (plan_get(p, "fd.base", 1) == 0) { simfd_set_base(0); probe_hit("descriptors_numbered_from_zero"); }
+    simfd_set_select_eintr((int)plan_get(p, "select.eintr", 0));
     if (nt < 1 || nt > TASK_MAX) sim_skip("bad-ntasks");
     for (int i = 0; i < p->nops; i++) if (p->ops[i].task < 0 || p->ops[i].task >= nt) sim_skip("bad-task");
     P = p;
